@@ -162,6 +162,19 @@ def run_item(item):
         except ValueError:
             out['sem'] = 'not liftable'
         return out
+    if k == 'affs':
+        m = H.x86_machine()
+        affs = [build(a) for a in item['affs']]
+        alloc_noise()
+        m.eval_instr(affs)
+        out = {'dump_id': m.dump_id(), 'dump_mem': m.dump_mem()}
+        base = regs['init_' + item['base']]
+        rb = []
+        for d in range(item['lo'], item['hi']):
+            a = base if d == 0 else E.ExprOp('+', base, E.ExprInt(MI.uint32(d & 0xffffffff)))
+            rb.append(str(X.expr_simp(m.eval_expr(E.ExprMem(a, 8), {}))))
+        out['readback'] = rb
+        return out
     if k == 'sets':
         e = build(item['e'])
         return {'r': sorted(str(x) for x in e.get_r()), 'r_mem': sorted(str(x) for x in e.get_r(True))}
